@@ -2101,7 +2101,7 @@ protected:    // interface for the derived class
         // the event is processable, let's try!
         static void do_process(Event const& evt,library_sm* self_,::boost::msm::back::HandledEnum& result, ::boost::mpl::true_)
         {
-            if (result != ::boost::msm::back::HANDLED_TRUE)
+            if (((int)result & (int)::boost::msm::back::HANDLED_TRUE) == 0)
             {
                 typedef dispatch_table<library_sm,complete_table,Event,CompilePolicy> table;
                 ::boost::msm::back::HandledEnum res_internal = table::instance().entries[0](*self_, 0, self_->m_states[0], evt);
